@@ -21,6 +21,8 @@ CLAIMS = {
          "Lean 4 iff-characterisation proofs (list-scan invariant for constructor_order) + differential correspondence + executable expected-set oracle", "§7 C06, §8.2"),
  "C09": ("Lean 4 theorems: versionOfValue_plain (for EVERY operator spelling without digits and every triple of digit strings below 2^31 — not only the 6 x 246 table — the modelled regex scan extracts exactly (major, minor, patch)); verLt_iff (the gates compare lexicographically), gate_lt_mono / gate_ge_mono (monotone in v), safeMath_gate / safeMath_never_both / stringErrors_gate / shortRevert_gate (each detector is active exactly on its side of 0.8.0 resp. 0.8.4), no_version_silent, versionOf_insert + other_pragma_noSolidity (inserting unrelated pragmas anywhere among the top-level items leaves the version unchanged). Model = code observed on the version table, exhaustively on short strings, and on generated files x version pool x pragma placements; the oracle recomputes the expected set from the single full version.",
          "Lean 4 proofs (regex scan on plain versions by induction; lexicographic gates; walker composition over top-level items) + exhaustive small-scope and table correspondence + executable expected-set oracle", "§7 C09, §8.5"),
+ "C08": ("Lean 4 theorems: constantVariables_exact (under unique names: reported = type locations of non-constant elementary state variables never directly written anywhere in the file, 'written' quantifying over all nodes via C01), sstore_exact, immutableVariables_sound (reported => assigned in a constructor and not written in any other contract function), immutableVariables_complete_partial together with a kernel-checked counterexample to the full completeness statement (known finding K1), memoryToCalldata_exact / _sound (never a parameter the body assigns through any index chain with any assignment operator, never a constructor parameter; every such unassigned named memory parameter is suggested). HashMap insert/remove order is modelled with association lists and shown irrelevant. Model = code observed on generated files biased to reuse state-variable and parameter names as write targets in every syntactic position; oracles recompute the expected sets independently.",
+         "Lean 4 proofs over association-list models of the HashMaps, lifted by the walker theorem + differential correspondence + executable oracles; one recorded known finding", "§7 C08, §8.4, §9 K1"),
 }
 
 def main():
